@@ -237,6 +237,17 @@ impl W<'_> {
                 V::Inc => {
                     self.c.inc += 1;
                     self.c.p3_checked += 1;
+                    // P3b: without any quote or '#' in x a newline always ends the first unit,
+                    // so an input that contains one does not "end inside a unit"
+                    if x.contains(&b'\n') && !x.iter().any(|b| matches!(b, b'\'' | b'"' | b'#')) {
+                        let f = vec![("clause", "P3b-incomplete-although-the-unit-is-terminated".to_string())];
+                        self.groups.add("P3", &f, (x.len(), x), || {
+                            (
+                                json!({"clause": "P3b", "start": sname, "x": hex(x), "y": ""}),
+                                format!("P3b: start={sname} V(\"{}\")=Incomplete although x holds a newline outside any string or block", show(x)),
+                            )
+                        });
+                    }
                     for l in 0..x.len() {
                         let fl = self.flags[si][l];
                         if fl != 0 {
@@ -313,6 +324,7 @@ fn replay(path: &str) -> ! {
                 }
                 _ => false,
             },
+            "P3b" => matches!(vx, V::Inc) && x.contains(&b'\n') && !x.iter().any(|b| matches!(b, b'\'' | b'"' | b'#')),
             "P3" => match &vx {
                 V::Inc => {
                     let l = w["prefix_len"].as_u64().unwrap() as usize;
@@ -351,13 +363,13 @@ fn main() {
     };
     let lx = args.get_usize("lx", lx);
     let kmax = *kfor.iter().max().unwrap();
-    let mut conts: Vec<Vec<Vec<u8>>> = Vec::new();
-    {
+    let build_conts = |sigma: &[&[u8]]| -> Vec<Vec<Vec<u8>>> {
+        let mut conts: Vec<Vec<Vec<u8>>> = Vec::new();
         let mut layer: Vec<Vec<u8>> = vec![vec![]];
         for _ in 0..kmax {
             let mut next = Vec::new();
             for p in &layer {
-                for t in SIGMA {
+                for t in sigma {
                     let mut v = p.clone();
                     v.extend_from_slice(t);
                     next.push(v);
@@ -366,27 +378,37 @@ fn main() {
             conts.push(next.clone());
             layer = next;
         }
-    }
+        conts
+    };
+    let conts_main = build_conts(SIGMA);
+    let conts_alt = build_conts(lex::SIGMA_ALT);
     let root = Main.root_node();
     let st = starts();
     let kfor2 = kfor.clone();
     // the empty context with the full length bound, then fixed argument / unit contexts with a
     // shorter bound (they put the enumerated tokens at parameter positions 2.., after a ';' ...)
-    let contexts: Vec<(&[u8], usize)> = vec![
-        (b"", lx),
-        (b"B 1,", lx - 1),
-        (b"B 'x' ,", lx - 2),
-        (b"A:B;B ", lx - 1),
-        (b"B #11,,", lx - 2),
+    // (alphabet, fixed context, max tokens); the second alphabet holds the other representative
+    // of every byte class and is swept one token shorter
+    type Ctx<'a> = (&'static [&'static [u8]], &'a Vec<Vec<Vec<u8>>>, &'static [u8], usize);
+    let contexts: Vec<Ctx> = vec![
+        (SIGMA, &conts_main, b"", lx),
+        (SIGMA, &conts_main, b"B 1,", lx - 1),
+        (SIGMA, &conts_main, b"B 'x' ,", lx - 2),
+        (SIGMA, &conts_main, b"A:B;B ", lx - 1),
+        (SIGMA, &conts_main, b"B #11,,", lx - 2),
+        (lex::SIGMA_ALT, &conts_alt, b"", lx - 1),
+        (lex::SIGMA_ALT, &conts_alt, b"b 7,", lx - 2),
     ];
     let mut out = Outcome::new("C12");
     let mut c = Counts::default();
     let mut distinct = Distinct::default();
     let mut expected_cases = 0u64;
-    for (pre, plx) in &contexts {
+    for (sigma, conts, pre, plx) in &contexts {
         let plx = *plx;
+        let sigma: &'static [&'static [u8]] = sigma;
+        let conts: &Vec<Vec<Vec<u8>>> = conts;
         let ws = lex::sweep(
-            SIGMA,
+            sigma,
             plx,
             args.threads,
             args.seed,
@@ -395,7 +417,7 @@ fn main() {
                     root,
                     starts: st.clone(),
                     flags: vec![[0u8; 80]; st.len()],
-                    conts: &conts,
+                    conts,
                     kfor: kfor2.clone(),
                     groups: Groups::new(),
                     c: Counts::default(),
@@ -410,12 +432,12 @@ fn main() {
             |w, x, last| w.refresh(x, last),
             30,
             |p, k| {
-                let x = lex::case_of(SIGMA, plx, p, k);
+                let x = lex::case_of(sigma, plx, p, k);
                 println!("HANG context=\"{}\" partition={p} case={k} x=\"{}\"", show(pre), show(&x));
                 std::process::exit(3);
             },
         );
-        expected_cases += lex::count_upto(SIGMA.len(), plx) * st.len() as u64;
+        expected_cases += lex::count_upto(sigma.len(), plx) * st.len() as u64;
         for w in ws {
             out.groups.merge(w.groups);
             distinct.merge(w.distinct);
@@ -451,7 +473,8 @@ fn main() {
     out.cov(
         "bounds",
         json!({"alphabet": lex::sigma_json(), "alphabet_size": SIGMA.len(), "max_tokens_x": lx,
-               "contexts": contexts.iter().map(|(p, l)| json!({"fixed_prefix": show(p), "max_tokens_after_it": l})).collect::<Vec<_>>(),
+               "second_alphabet": lex::sigma_alt_json(),
+               "contexts": contexts.iter().map(|(sg, _, p, l)| json!({"alphabet": if sg.len() == SIGMA.len() { "first" } else { "second" }, "fixed_prefix": show(p), "max_tokens_after_it": l})).collect::<Vec<_>>(),
                "continuation_tokens_by_len_x": kfor, "start_nodes": st.iter().map(|s| s.0).collect::<Vec<_>>(),
                "tree": "mc::ifaces::Main (macro-generated)"}),
     );
